@@ -97,7 +97,14 @@ func handleDigestAuthFunc(username, password string) ResponseMiddleware {
 }
 
 func createDigestAuth(resp *http.Response, username, password string) (auth string, err error) {
+	// a server may offer several schemes, one WWW-Authenticate line each: answer the Digest one
 	chal := resp.Header.Get(header.WwwAuthenticate)
+	for _, v := range resp.Header.Values(header.WwwAuthenticate) {
+		if strings.HasPrefix(strings.Trim(v, " \n\r\t"), "Digest ") {
+			chal = v
+			break
+		}
+	}
 	if chal == "" {
 		return "", errDigestBadChallenge
 	}
